@@ -8,7 +8,15 @@ base = json.load(open("/root/.vp/BASELINE.json"))
 stable = set(base["stable_pass"])
 fd, junit = tempfile.mkstemp(suffix=".xml"); os.close(fd)
 env = dict(os.environ); env["PYTHONDONTWRITEBYTECODE"] = "1"; env.pop("BROMELIA_VERIF", None)
-p = subprocess.run(["/venv/bin/python", "-m", "pytest", "-q", "-p", "no:cacheprovider", "--timeout=900",
+# the suite binds fixed ports (3868-3870): run it in a private network namespace when the kernel allows it, so
+# that concurrent suite runs (sub-agents, scratch worktrees) cannot collide
+prefix = []
+try:
+    if subprocess.run(["unshare", "-n", "sh", "-c", "ip link set lo up"], capture_output=True).returncode == 0:
+        prefix = ["unshare", "-n", "sh", "-c", 'ip link set lo up && exec "$@"', "sh"]
+except OSError:
+    pass
+p = subprocess.run(prefix + ["/venv/bin/python", "-m", "pytest", "-q", "-p", "no:cacheprovider", "--timeout=900",
                     "--continue-on-collection-errors", f"--junitxml={junit}"], cwd=repo, env=env,
                    stdout=subprocess.PIPE, stderr=subprocess.STDOUT, text=True)
 passed = set()
